@@ -8,8 +8,12 @@ import Aiorpcx.C18.Model
     IPv6    : the `IPLib` parameter is instantiated by a table `<string>=<canonical string>` given
               after a `|` on the line (the graph of the real `ipaddress` on the strings concerned)
 
-    ops (see `handle`): proto host classify port split ip4 show4 mkaddr addr svc mksvc rx sweep;
-    `proto-pinned`, `host-pinned`, `split-pinned` run the pinned-tree variants. -/
+    lower   : `str.lower()` (the `PyLower` parameter) is ASCII lower-casing unless the line gives
+              its value on a string as a token `L:<string>=<lowered string>` after the `|`
+
+    ops (see `handle`): proto host classify port split ip4 show4 mkaddr addr svc mksvc mksvco addrd svcd
+    eqaddr eqsvc rx sweep; `proto-pinned`, `host-pinned`, `split-pinned` run the pinned-tree
+    variants. -/
 open Aiorpcx Aiorpcx.C18
 
 def hexNat (s : String) : Option Nat :=
@@ -112,8 +116,9 @@ def parseMode (s : String) : Option Mode :=
   if s == "match" then some .match else if s == "fullmatch" then some .fullmatch
   else if s == "search" then some .search else none
 
-/-- run-length encoding of `f lo … f hi` -/
-def rle (f : Nat → String) (lo hi : Nat) : String := Id.run do
+/-- run-length encoding of `f lo … f hi`; outcomes are compared as values and only rendered
+(`sh`) where a run ends -/
+def rle {β : Type} [BEq β] (f : Nat → β) (sh : β → String) (lo hi : Nat) : String := Id.run do
   if hi < lo then return "."
   let mut out : Array String := #[]
   let mut start := lo
@@ -121,11 +126,24 @@ def rle (f : Nat → String) (lo hi : Nat) : String := Id.run do
   for c in [lo + 1 : hi + 1] do
     let r := f c
     if r != cur then
-      out := out.push s!"{hexOf start}-{hexOf (c - 1)}={cur}"
+      out := out.push s!"{hexOf start}-{hexOf (c - 1)}={sh cur}"
       start := c
       cur := r
-  out := out.push s!"{hexOf start}-{hexOf hi}={cur}"
+  out := out.push s!"{hexOf start}-{hexOf hi}={sh cur}"
   return String.intercalate " " out.toList
+
+/-- an outcome as a comparable value: exception code (0 = returned) and the returned value -/
+def outc {β : Type} : Except PyExc β → Nat × Option β
+  | .ok v => (0, some v)
+  | .error .valueError => (1, none)
+  | .error .typeError => (2, none)
+  | .error .attributeError => (3, none)
+
+def showOutc {β : Type} (f : β → String) : Nat × Option β → String
+  | (_, some v) => "ok_" ++ f v
+  | (1, none) => "ValueError"
+  | (2, none) => "TypeError"
+  | (_, none) => "AttributeError"
 
 def boolStr (b : Bool) : String := if b then "True" else "False"
 
@@ -157,9 +175,18 @@ def parseEntry (t : String) : Option (Option Str × ServicePart × PyVal V6) :=
     | _, _ => none
   | _ => none
 
-def handleOp (toks : List String) (t : Table) : String :=
+def eqStr {β : Type} [DecidableEq β] (a b : Except PyExc β) : String :=
+  match a, b with
+  | .ok x, .ok y => if x = y then "ok 1" else "ok 0"
+  | .error e, _ => showExc e
+  | _, .error e => showExc e
+
+def handleOp (toks : List String) (t : Table) (lt : Table) : String :=
   let L := lib t
   let cfg := repaired
+  let low : PyLower := fun s => match lt.find? (fun p => p.1 == s) with
+    | some p => p.2
+    | none => lower s
   match toks with
   | ["proto", v] => match parseVal v with
     | some v => showRes showStr (validateProtocol cfg v) | none => "bad-op"
@@ -194,6 +221,12 @@ def handleOp (toks : List String) (t : Table) : String :=
     | some p, some a => (match mkService L cfg p (.val a) with
       | .ok s => roundTripSvc L cfg s | .error e => showExc e)
     | _, _ => "bad-op"
+  | ["mksvco", p, h, port] => match parseVal p, parseVal h, parseVal port with
+    | some p, some h, some port => (match mkNetAddress L cfg h port with
+      | .error e => "addr-" ++ showExc e
+      | .ok a => (match mkService L cfg p (.obj a) with
+        | .ok s => roundTripSvc L cfg s | .error e => showExc e))
+    | _, _, _ => "bad-op"
   | ["addrd", v, dh, dp] => match parseVal v, parseVal dh, parseVal dp with
     | some v, some dh, some dp => showRes showAddr (NetAddr.fromStringD L cfg (some (dh, dp)) v)
     | _, _, _ => "bad-op"
@@ -203,8 +236,15 @@ def handleOp (toks : List String) (t : Table) : String :=
         match es.find? (fun e => e.1 == proto && e.2.1 == part) with
         | some e => e.2.2
         | none => .none
-      showRes showSvc (Service.fromStringD L cfg g v)
+      showRes showSvc (Service.fromStringD L cfg low g v)
     | _, _ => "bad-op"
+  | ["eqaddr", h1, p1, h2, p2] => match parseVal h1, parseVal p1, parseVal h2, parseVal p2 with
+    | some h1, some p1, some h2, some p2 => eqStr (mkNetAddress L cfg h1 p1) (mkNetAddress L cfg h2 p2)
+    | _, _, _, _ => "bad-op"
+  | ["eqsvc", r1, a1, r2, a2] => match parseVal r1, parseVal a1, parseVal r2, parseVal a2 with
+    | some r1, some a1, some r2, some a2 =>
+      eqStr (mkService L cfg r1 (.val a1)) (mkService L cfg r2 (.val a2))
+    | _, _, _, _ => "bad-op"
   | ["rx", m, rx, s] => match parseMode m, parseRx rx, parseStr s with
     | some m, some rx, some s => if pyMatch rx m s then "1" else "0"
     | _, _, _ => "bad-op"
@@ -212,25 +252,31 @@ def handleOp (toks : List String) (t : Table) : String :=
     match md.toNat?, parseStr pre, parseStr suf, hexNat lo, hexNat hi with
     | some md, some pre, some suf, some lo, some hi =>
       let mk := fun (c : Nat) => PyVal.str (α := V6) (pre ++ c :: suf)
-      if fn == "proto" then rle (fun c => (showRes showStr (validateProtocol cfg (mk c))).replace " " "_") lo hi
-      else if fn == "host" then rle (fun c => showRes boolStr (isValidHostname cfg (mk c)) |>.replace " " "_") lo hi
+      if fn == "proto" then rle (fun c => outc (validateProtocol cfg (mk c))) (showOutc showStr) lo hi
+      else if fn == "host" then rle (fun c => outc (isValidHostname cfg (mk c))) (showOutc boolStr) lo hi
       else if fn == "classify" then
-        rle (fun c => match classifyHost L cfg (mk c) with
-          | .ok (.name _) => "N" | .ok (.ip4 x) => "4:" ++ showIP4 x
-          | .ok (.ip6 x) => "6:" ++ showStr x | .error e => showExc e) lo hi
+        -- (host names are all rendered `N`: compare them as one value)
+        let norm : Host V6 → Host V6 := fun h => match h with | .name _ => .name [] | h => h
+        rle (fun c => outc ((classifyHost L cfg (mk c)).map norm))
+          (fun (o : Nat × Option (Host V6)) => match o with
+            | (_, some (.name _)) => "N" | (_, some (.ip4 x)) => "4:" ++ showIP4 x
+            | (_, some (.ip6 x)) => "6:" ++ showStr x | o => showOutc (fun _ => "") o) lo hi
       else if fn == "port" then
-        rle (fun c => showRes toString (validatePort { cfg with maxStrDigits := md } (mk c)) |>.replace " " "_") lo hi
+        let cfg' := { cfg with maxStrDigits := md }
+        rle (fun c => outc (validatePort cfg' (mk c))) (showOutc toString) lo hi
       else "bad-op"
     | _, _, _, _, _ => "bad-op"
   | _ => "bad-op"
 
 def handle (line : String) : String :=
   match line.splitOn " | " with
-  | [ops] => handleOp ((ops.splitOn " ").filter (· ≠ "")) []
+  | [ops] => handleOp ((ops.splitOn " ").filter (· ≠ "")) [] []
   | [ops, tab] =>
-    match parseTable ((tab.splitOn " ").filter (· ≠ "")) with
-    | some t => handleOp ((ops.splitOn " ").filter (· ≠ "")) t
-    | none => "bad-op"
+    let toks := (tab.splitOn " ").filter (· ≠ "")
+    let lows := (toks.filter (·.startsWith "L:")).map (fun t => (t.drop 2).toString)
+    match parseTable (toks.filter (fun t => !t.startsWith "L:")), parseTable lows with
+    | some t, some lt => handleOp ((ops.splitOn " ").filter (· ≠ "")) t lt
+    | _, _ => "bad-op"
   | _ => "bad-op"
 
 def main : IO Unit := Hex.lineLoop handle
